@@ -5,6 +5,13 @@ Harness: pvh_c01 built with `all-nodes-with-ranges`.  Proof-level part: Lean the
 real parser produces and must agree with the independent Python oracle's structural verdict.  The Python
 oracle judges every tree of the sweep: structure, equality with CPython's positions for the kinds CPython
 positions, and `source[range] == construct text` rules for the others.
+
+Ranged parser model (streams `ranged-parser-model-*`, harness pvh_c02, request `rexpr <hex src> <spans>`): the Lean
+model `PV.C02.parseRExpression` (lean/PV/C02/RParse.lean, ranged twin of the reference expression parser) computes
+the range of every node from the tokens of the source and the real lexer's token spans; its canonical ranged tree
+must be byte-identical with the real parser's (Expression mode, all-ranges build), and the same oracle judges
+the real tree.  Sources: C11's generators (imported) + layouts written here (parentheses / trivia everywhere,
+multi-byte names, f-strings).
 """
 import ast
 import io
@@ -65,7 +72,9 @@ LEVEL_TEXT = ("Machine-checked Lean 4 theorems about the executable predicate ra
               "parenthesised forms, f-string fields, concatenated strings) and the CPython stdlib.")
 LEVEL_NOTE = ("Partial: the range computation inside the generated parser is not modelled; conformance of the parser's "
               "ranges is swept, not proved.")
-RULE = "distinct source texts whose every node range is judged; correspondence: (source, real tree) pairs evaluated by the Lean predicate"
+RULE = ("distinct source texts whose every node range is judged; correspondence: (source, real tree) pairs evaluated by the "
+        "Lean predicate, and (expression source, real token spans) pairs whose ranged tree the Lean parser model computes; "
+        "non-trivial = the expression has an operator, bracket, separator or blank")
 
 COMPOUND = {"StmtFunctionDef", "StmtAsyncFunctionDef", "StmtClassDef", "StmtFor", "StmtAsyncFor", "StmtWhile", "StmtIf",
             "StmtWith", "StmtAsyncWith", "StmtMatch", "StmtTry", "StmtTryStar", "ExceptHandlerExceptHandler"}
@@ -225,7 +234,8 @@ def extents(b, tree):
                     bad = "parameter with default: from the name to the end of the default"
             elif kind == "Comprehension":
                 h = _hull(_sub_nodes(fd["target"]) + _sub_nodes(fd["iter"]) + _sub_nodes(fd["ifs"]))
-                if not (re.match(rb"(async\b|for\b)", text) and a <= h[0] and h[1] <= e and
+                first = rb"async\b" if fd.get("is_async") == "true" else rb"for\b"   # the clause's own first keyword
+                if not (re.match(first, text) and a <= h[0] and h[1] <= e and
                         tail_ok(h[1], e, _T_CLOSE) and _balanced(text)):
                     bad = "comprehension clause text"
             elif kind == "WithItem":
@@ -941,7 +951,11 @@ def _rx_ok(s):
     if not s or len(s) > 2000 or not c11.in_lexer_domain(s) or line_break_in_field(s):
         return False
     t = c11.py_tree(s)
-    return t is not None and c11.tree_in_domain(t)
+    if t is None:
+        return False
+    if s.isascii() and "\\" not in s:
+        return True                 # no way to write a character outside the known set
+    return c11.tree_in_domain(t)
 
 
 def _expr_spans(tree, b):
@@ -1101,7 +1115,7 @@ def _variants_chunk(args):
             v = multibyte_variant(s)
             if v:
                 out.append(v)
-    return out
+    return [v for v in out if _rx_ok(v)]
 
 
 def _par(kind, srcs, chunk=200):
@@ -1112,65 +1126,80 @@ def _par(kind, srcs, chunk=200):
         return [x for r in ex.map(_variants_chunk, jobs) for x in r]
 
 
-def _uniq(srcs, seen=None):
+def _uniq(srcs, seen=None, check=True):
+    """distinct texts inside the streams' domain (`check=False`: the producer has applied `_rx_ok` already, or is a
+    C11 generator, which applies the same three filters itself; only the line-break-in-field rule is added)"""
     seen = set() if seen is None else seen
     out = []
     for s in srcs:
-        if s not in seen and _rx_ok(s):
+        if s not in seen and (_rx_ok(s) if check else not line_break_in_field(s)):
             seen.add(s)
             out.append(s)
     return out
+
+
+def _fam_job(args):
+    """one family of C11's generators (run in a worker process; deterministic in the Random objects passed in)"""
+    what, q, rngs = args
+    with _no_c11_finding_filter():
+        if what == "directed":
+            return c11.directed_requests(full=True)
+        if what == "stdlib":
+            return c11.stdlib_expressions(300 if q else 2000, rngs[0], 30 if q else 100)
+        cs = c11.constant_sources(rngs[0], 600 if q else 4000)
+        consts = ["0", "1", "42", "1.5", "1e100", "2j", "'s'", '"d"', "b'b'", "'it\\'s'", "0xff", "1_0", "''", "'\\n'",
+                  "10 ** 20", "1e-7", "3.14j", "'é'", "u'u'", "'😀'", "'日本' 'ü'"] + cs[:200:7]
+        consts = [c for c in consts if " " not in c or c.startswith(("'", '"'))]
+        return cs, c11.random_sources(rngs[1], 20000 if q else 120000, consts)
 
 
 def rx_families(ctx):
     """[(stream name, kind, exhaustive, note, [source])] — deterministic in ctx.rng"""
     q = ctx.quick
     fams = []
-    corpus = _uniq(RX_FINDING_EXPRS + c11.CORPUS + [s for k in c11.FINDING_PROBES for s in c11.FINDING_PROBES[k]]
-                   + RX_LAYOUT + RX_LAYOUT_ML)
+    with ProcessPoolExecutor(3) as ex:
+        fut = [ex.submit(_fam_job, ("directed", q, ())),
+               ex.submit(_fam_job, ("random", q, (ctx.rng("rx-constants"), ctx.rng("rx-random")))),
+               ex.submit(_fam_job, ("stdlib", q, (ctx.rng("rx-stdlib"),)))]
+        corpus = _uniq(RX_FINDING_EXPRS + c11.CORPUS + [s for k in c11.FINDING_PROBES for s in c11.FINDING_PROBES[k]]
+                       + RX_LAYOUT + RX_LAYOUT_ML)
+        pv = _uniq(_par("paren", corpus, chunk=40), check=False)
+        pv += _uniq(_par("trivia", corpus, chunk=40), set(pv), check=False)
+        directed, (cs, rs), hs = [f.result() for f in fut]
     fams.append(("corpus", "corpus", False,
                  "the listed findings that are expressions, C11's regression corpus and finding probes, hand-written "
                  "layouts: multi-byte names and strings, line breaks and comments inside brackets, redundant "
                  "parentheses, every lambda parameter-list shape, comprehensions, slices, starred, yield, f-strings "
                  "(nested specs, conversions, `=`, concatenation, raw, triple-quoted with line breaks)", corpus))
-    with _no_c11_finding_filter():
-        directed = _uniq(c11.directed_requests(full=True))
     fams.append(("directed-slot-x-kind", "exhaustive", True,
                  "every admissible (parent slot, child kind) pair with the child parenthesised and bare, every ordered "
                  "operator pair on both nesting sides, every comparison operator x operand kind, every slot-in-slot "
-                 "nesting for six child kinds (C11's enumeration)", directed))
-    pv = _uniq(_par("paren", corpus, chunk=40))
-    pv += _uniq(_par("trivia", corpus, chunk=40), set(pv))
+                 "nesting for six child kinds (C11's enumeration)", _uniq(directed, check=False)))
     fams.append(("parens-and-trivia-everywhere", "directed", False,
                  "every corpus text with one redundant pair of parentheses (three spacings, one with a line break and a "
                  "comment) around each sub-expression occurrence CPython positions, all of them at once, and blanks / "
                  "line breaks / comments after every opening bracket and comma and before every closing bracket", pv))
-    with _no_c11_finding_filter():
-        cs = c11.constant_sources(ctx.rng("rx-constants"), 600 if q else 4000)
-        consts = ["0", "1", "42", "1.5", "1e100", "2j", "'s'", '"d"', "b'b'", "'it\\'s'", "0xff", "1_0", "''", "'\\n'",
-                  "10 ** 20", "1e-7", "3.14j", "'é'", "u'u'", "'😀'", "'日本' 'ü'"] + cs[:200:7]
-        consts = [c for c in consts if " " not in c or c.startswith(("'", '"'))]
-        rs = c11.random_sources(ctx.rng("rx-random"), 20000 if q else 120000, consts)
-        hs = c11.stdlib_expressions(300 if q else 2000, ctx.rng("rx-stdlib"), 30 if q else 100)
     fams.append(("constants", "random", False,
-                 "number, string and bytes literals of every spelling (token spans of long and escaped literals)", _uniq(cs)))
-    rs = _uniq(rs)
+                 "number, string and bytes literals of every spelling (token spans of long and escaped literals)",
+                 _uniq(cs, check=False)))
+    rs = _uniq(rs, check=False)
     fams.append(("random-expressions", "random", False,
                  "grammar-directed random expressions over the whole fragment (C11's generator: lambda parameter lists, "
                  "comprehensions, slices, starred, f-strings with specs, redundant parentheses)", rs))
     sub = rs[:(6000 if q else 40000)]
-    mb = _uniq(_par("mb", sub))
+    mb = _uniq(_par("mb", sub), check=False)
     fams.append(("random-expressions-multibyte", "random", False,
                  "the same with identifiers (also inside f-string fields) replaced by multi-byte names and multi-byte text "
                  "put into string literals", mb))
     sub = rs[-(4000 if q else 30000):]
-    lay = _uniq(_par("paren-all", sub))
-    lay += _uniq(_par("trivia-all", sub), set(lay))
+    lay = _uniq(_par("paren-all", sub), check=False)
+    lay += _uniq(_par("trivia-all", sub), set(lay), check=False)
     fams.append(("random-expressions-relaid", "random", False,
                  "random expressions with every sub-expression parenthesised at once / with blanks, line breaks and comments "
                  "inside every bracket", lay))
     fams.append(("cpython-stdlib-expressions", "corpus", False,
-                 "expressions harvested from CPython 3.11 standard-library files (ast.unparse-normalised)", _uniq(hs)))
+                 "expressions harvested from CPython 3.11 standard-library files (ast.unparse-normalised)",
+                 _uniq(hs, check=False)))
     return fams
 
 
@@ -1189,9 +1218,11 @@ def build_rexpr_streams(ctx):
     pairs = []
     for name, kind, exh, note, srcs in rx_families(ctx):
         sp = core.run_lines([hbin], [f"lexspans e {hexs(s)}" for s in srcs], jobs=8)
-        reqs = [f"rexpr {hexs(s)} {p}" for s, p in zip(srcs, sp) if re.fullmatch(r"[0-9,-]+", p)]
+        # only a regular rejection `(err …)` removes a text; a panic / abort stays in and is judged by the oracle
+        reqs = [f"rexpr {hexs(s)} {p if re.fullmatch(r'[0-9,-]+', p) else '-'}" for s, p in zip(srcs, sp)
+                if not p.startswith("(err")]
         outs = core.run_lines([hbin], reqs, jobs=8)
-        keep = [(r, o) for r, o in zip(reqs, outs) if o.startswith("(Expr")]
+        keep = [(r, o) for r, o in zip(reqs, outs) if not o.startswith("(err")]
         dropped += len(srcs) - len(keep)
         total += len(keep)
         pairs += keep
